@@ -124,10 +124,12 @@ FLIP = {'Eq': 'Eq', 'Ne': 'Ne', 'Lt': 'Gt', 'Gt': 'Lt', 'Le': 'Ge', 'Ge': 'Le'}
 
 class PathFacts:
     def __init__(self, conds, nonneg=None, typed=None):
-        """conds: [(term, 'eq'|'ne', value, bb)];  nonneg(atom)->bool tells which atoms are unsigned quantities."""
+        """conds: [(term, 'eq'|'ne', value, bb)];  nonneg(atom)->bool tells which atoms are unsigned quantities;
+        typed(atom)->IntervalSet|None gives the range an atom has by its type."""
         self.iv = {}      # atom -> IntervalSet
         self.diff = {}    # (a, b) -> c   meaning a - b <= c   (a, b atoms or ZERO)
         self.nonneg = nonneg or (lambda a: False)
+        self.typed = typed or (lambda a: None)
         self.raw = []
         for c in conds:
             self.add(c)
@@ -209,10 +211,15 @@ class PathFacts:
             if a is Z:
                 continue
             s = self.iv.get(a)
+            tr = self.typed(a)
+            if tr is not None:
+                s = tr if s is None else s.intersect(tr)
+            if self.nonneg(a):
+                s = IntervalSet([(0, INF)]) if s is None else s.intersect(IntervalSet([(0, INF)]))
+            if s is not None:
+                self.iv[a] = s
             lo = s.lo() if s is not None else -INF
             hi = s.hi() if s is not None else INF
-            if self.nonneg(a):
-                lo = max(lo, 0)
             if hi != INF:
                 k = (a, Z)
                 dist[k] = min(dist.get(k, INF), hi)
@@ -254,6 +261,8 @@ class PathFacts:
         d = {x: k for x, k in d.items() if k != 0}
         c = lb[1] - la[1] - (1 if strict else 0)   # need Σ d·x <= c
         Z = self.ZERO
+        for x in d:
+            self.range_of(x)    # registers the atom's typed range
         if not d:
             return 0 <= c
         if len(d) == 1:
@@ -283,6 +292,14 @@ class PathFacts:
         return hi <= c
 
     def range_of(self, atom):
+        if atom not in self.iv:
+            tr = self.typed(atom)
+            if tr is not None or self.nonneg(atom):
+                s = tr if tr is not None else IntervalSet()
+                if self.nonneg(atom):
+                    s = s.intersect(IntervalSet([(0, INF)]))
+                self.iv[atom] = s
+                self._closed = False
         self.close()
         Z = self.ZERO
         hi = self.dist.get((atom, Z), INF)
